@@ -1,7 +1,7 @@
 (* Run mode: run_roundtrip (run-length code incl. end of line and RunIndex) and
    run_interruption_roundtrip (both run contexts, both map conditions). *)
 From V Require Import Common.Base JpegLS.JlsParams JpegLS.JlsGolomb JpegLS.JlsRun.
-From V Require Import JpegLS.JlsProofsGolomb.
+From V Require Import JpegLS.JlsProofsGolomb JpegLS.JlsProofsWriter.
 
 (* ---------- J table / RunIndex ---------- *)
 
@@ -94,6 +94,9 @@ Proof.
   - eexists. reflexivity.
 Qed.
 
+Lemma wop_ok_ones : forall n, Forall wop_ok (repeat (1, 1) n).
+Proof. intros. apply Forall_forall. intros x Hx. apply repeat_spec in Hx. subst x. unfold wop_ok. cbn. lia. Qed.
+
 (* run_roundtrip: DecodeRunLength inverts EncodeRunLength for every run length 0 <= n <= remaining
    (remaining >= 1 samples left in the line), end of line exactly when n = remaining, any
    RunIndex; both sides leave the same RunIndex; the fuel (run pixels + 1) suffices. *)
@@ -101,7 +104,8 @@ Theorem run_roundtrip : forall fuel n remaining ri rest,
   0 <= ri <= 31 -> 0 <= n <= remaining -> 1 <= remaining -> (Z.to_nat n < fuel)%nat ->
   exists ops ri',
     EncodeRunLength fuel n (n =? remaining) ri = Some (ops, ri') /\ 0 <= ri' <= 31 /\
-    DecodeRunLength (ops_bits ops ++ rest) remaining ri = Some (n, ri', rest).
+    DecodeRunLength (ops_bits ops ++ rest) remaining ri = Some (n, ri', rest) /\
+    Forall wop_ok ops.
 Proof.
   intros fuel n remaining ri rest Hri Hn Hrem Hf.
   destruct (enc_runlen_loop_total fuel n ri [] Hri ltac:(lia) Hf) as [[[rl' ri'] acc'] Hloop].
@@ -113,6 +117,9 @@ Proof.
   destruct (Z.eqb_spec n remaining) as [Heol|Hneol].
   - (* end of line *)
     eexists. exists ri'. split; [reflexivity|]. split; [assumption|].
+    split.
+    2:{ rewrite frev_rev. apply Forall_rev. destruct (negb (rl' =? 0)); [constructor; [unfold wop_ok; cbn; lia|]|];
+        apply wop_ok_ones. }
     unfold DecodeRunLength. rewrite frev_rev.
     destruct (Z.eqb_spec rl' 0) as [Hz|Hnz]; cbn [negb].
     + rewrite rev_repeat, ops_bits_ones.
@@ -126,6 +133,11 @@ Proof.
       destruct (Z.geb_spec remaining remaining); [|lia]. subst n. reflexivity.
   - (* interrupted run: ones, then a zero bit and J bits of the remainder *)
     eexists. exists ri'. split; [reflexivity|]. split; [assumption|].
+    split.
+    2:{ rewrite frev_rev. apply Forall_rev. constructor; [|apply wop_ok_ones].
+        unfold wop_ok. cbn [fst snd]. rewrite Z.shiftl_1_l in Hrl'.
+        assert (2 ^ Jof ri' <= 2 ^ 32) by (apply Z.pow_le_mono_r; lia).
+        unfold wrapU. rewrite Z.mod_small by lia. rewrite Z.pow_add_r by lia. change (2 ^ 1) with 2. lia. }
     unfold DecodeRunLength. rewrite frev_rev. cbn [rev].
     rewrite rev_repeat, ops_bits_app, ops_bits_ones. cbn [ops_bits]. rewrite app_nil_r.
     rewrite <- app_assoc. rewrite Hcont by lia.
@@ -177,7 +189,8 @@ Theorem run_interruption_roundtrip : forall p ri c e rest,
   jp_qbpp p + 1 < jp_limit p - Jof ri - 1 -> jp_limit p <= 64 ->
   2 * Z.abs e <= 2 ^ jp_qbpp p ->
   DecodeRunInterruption p ri c (ops_bits (fst (EncodeRunInterruption p ri c e)) ++ rest) =
-  Some (e, snd (EncodeRunInterruption p ri c e), rest).
+  Some (e, snd (EncodeRunInterruption p ri c e), rest) /\
+  (1 <= jp_qbpp p -> Forall wop_ok (fst (EncodeRunInterruption p ri c e))).
 Proof.
   intros p ri c e rest Hty He1 Hri Hk32 Hq Hlim Hl64 He.
   unfold EncodeRunInterruption, DecodeRunInterruption. cbv zeta. cbn [fst snd].
@@ -196,6 +209,8 @@ Proof.
     - destruct Hty as [T|T]; rewrite T; [lia|]. specialize (He1 T). lia. }
   assert (Hem1 : em - 1 < 2 ^ jp_qbpp p).
   { unfold em. destruct mp; destruct Hty as [T|T]; rewrite T; lia. }
+  split.
+  2:{ intro Hq1. fold mp. fold em. apply encode_mapped_ops_ok; lia. }
   rewrite golomb_roundtrip by lia.
   (* ComputeErrorValue recovers e *)
   assert (Herr : ComputeErrorValue c (em + rc_type c) k = e).
